@@ -17,7 +17,7 @@ final inspect_mem equals the model.
 import copy
 import hashlib
 
-from .. import gen, world, replica, transforms
+from .. import gen, world, replica, transforms, common
 from ..common import Violation, HarnessError, mask
 
 ID = 'C08'
@@ -99,13 +99,37 @@ def gen_case(streams, tier):
         tape = gen_tape(i, cfg, i.randint(6, 40 if tier == 'thorough' else 24))
     f = streams['faults']
     faults = []
-    if f.random() < 0.3:
+    plain_py = not rom and not covering and cfg.get('variant', 'plain') == 'plain' and cfg['W'] \
+        and all(l.split('#')[0] in ('sim', 'fast') for l in labels)
+    if plain_py and f.random() < 0.3:
+        # an auxiliary ROM without padding, addressed by ra0 ^ wa0: a stimulus that reads one of
+        # its holes is refused by the simulator in the middle of a step that may also carry an
+        # enabled write (fault 'rom_hole_read'; the step is not a cycle)
+        k = min(cfg['aw'], 3)
+        holes = sorted(f.sample(range(1 << k), f.randint(1, max(1, (1 << k) // 3)))) if k else []
+        if holes and len(holes) < (1 << k):
+            cfg['aux_rom'] = {'k': k, 'holes': holes, 'mul': f.getrandbits(8) | 1,
+                              'add': f.getrandbits(8)}
+            clean = []
+            for cyc in tape:
+                if ((cyc['ra0'] ^ cyc['wa0']) & mask(k)) in holes:
+                    faults.append({'kind': 'reject_step', 'at': len(clean), 'wire': None,
+                                   'value': 'rom_hole', 'inputs': dict(cyc), 'replica': None})
+                else:
+                    clean.append(cyc)
+            tape = clean or tape[:0]
+    if plain_py and tape and f.random() < 0.25:
+        # a planted rtl_assert on we0 (or on its complement): it fires in cycles with (without)
+        # an enabled write; the caller catches it and keeps stepping
+        cfg['assert'] = f.choice(['we0', 'not_we0'])
+    if tape and f.random() < 0.3:
         port = f.choice(['ra0'] + (['wa0', 'wd0'] if cfg['W'] else []))
         w = cfg['bw'] if port == 'wd0' else cfg['aw']
         faults.append({'kind': 'reject_step', 'at': f.randrange(len(tape)), 'wire': port,
-                       'value': world.bad_value(f, w), 'replica': None})
+                       'value': world.bad_value(f, w) if f.random() < 0.6 else 'missing',
+                       'replica': None})
     if cfg['W'] and cfg.get('variant', 'plain') == 'plain' and 'compiled' not in labels \
-            and 'verilog' not in labels and not cfg.get('second_mem') and f.random() < 0.4:
+            and 'verilog' not in labels and not cfg.get('second_mem') and tape and f.random() < 0.4:
         for _ in range(f.randint(1, 2)):
             faults.append({'kind': 'storage_poke', 'at': f.randrange(len(tape)),
                            'addr': _addr(f, cfg), 'value': gen.rand_val(f, cfg['bw'])})
@@ -237,9 +261,25 @@ def build(cfg):
             ra = pyrtl.Input(cfg['aw'], 'ra%d' % r)
             o = pyrtl.Output(cfg['bw'], 'rd%d' % r)
             o <<= mem[ra]
+            if r == 0 and cfg.get('aux_rom'):
+                ax = cfg['aux_rom']
+                data = {a: (ax['mul'] * a + ax['add']) & mask(cfg['bw'])
+                        for a in range(1 << ax['k']) if a not in ax['holes']}
+                aux = pyrtl.RomBlock(cfg['bw'], ax['k'], data, name='aux', asynchronous=True,
+                                     max_read_ports=None)
+                axo = pyrtl.Output(cfg['bw'], 'ax0')
+                axo <<= aux[(ra ^ blk.wirevector_by_name['wa0'])[:ax['k']]]
             if mem2 is not None:
                 o2 = pyrtl.Output(cfg['bw'], 'sd%d' % r)
                 o2 <<= mem2[ra]
+        if cfg.get('assert'):
+            we0 = blk.wirevector_by_name['we0']
+            if cfg['assert'] == 'we0':
+                pyrtl.rtl_assert(we0, common.PlantedAssertion('planted'))
+            else:
+                nwe = pyrtl.WireVector(1, 'nwe0')
+                nwe <<= ~we0
+                pyrtl.rtl_assert(nwe, common.PlantedAssertion('planted'))
     return blk, mem
 
 
@@ -265,6 +305,12 @@ class Model(object):
             out['rd%d' % r] = self.rom(a) if self.rom else self.mem.get(a, self.cfg.get('default', 0))
             if self.cfg.get('second_mem'):
                 out['sd%d' % r] = self.mem2.get(a, self.cfg.get('default', 0))
+            if r == 0 and self.cfg.get('aux_rom'):
+                ax = self.cfg['aux_rom']
+                aa = (a ^ cyc['wa0']) & mask(ax['k'])
+                if aa in ax['holes']:
+                    raise common.RomHole(aa)
+                out['ax0'] = (ax['mul'] * aa + ax['add']) & mask(self.cfg['bw'])
         variant = self.cfg.get('variant', 'plain')
         if variant == 'registered':
             src = self.prev          # the port registers hold last cycle's inputs (0 at reset)
@@ -376,7 +422,10 @@ def run(case, res):
     for ci, cyc in enumerate(tape):
         for f in pokes.get(ci, []):
             model.mem[f['addr']] = f['value']
-        exp.append(model.step(cyc))
+        try:
+            exp.append(model.step(cyc))
+        except common.RomHole:
+            raise common.Inconclusive('a cycle of the tape reads a hole of the auxiliary ROM')
     faults = {}
     for f in case['faults']:
         if f['kind'] == 'reject_step':
@@ -413,6 +462,9 @@ def run(case, res):
     real = [r for r in reps if r.label != 'verilog']
     v = replica.run_interleaved(reps, tape, case['interleave'],
                                 faults, res, on_cycle, before)
+    fired = sum(getattr(r, 'fired', 0) for r in reps)
+    if fired:
+        res.faults.hit('assertion_fired_and_caught', fired)
     if v:
         if 'reject' in v.oracle and v.detail.get('sim') == 'verilog':
             raise HarnessError('reject fault routed to the Verilog replica')
